@@ -265,7 +265,7 @@ def check(ctx):
               "LT: minuend = sum, subtrahend = k (sum - k < 0); GT: minuend = k, subtrahend = sum (k - sum < 0)",
               "operand roles of the subtraction changed: less-than `%s`, greater-than `%s`" % (t_, e_), sel[0])
     Fi = Facts(ineq)
-    fact(ctx, R, ineq, "difference", Fi.assigns("neg_twos_comp_nbs"), ["self._convert_to_negative_twos_complement(nbs)"], "the subtrahend is negated in two's complement")
+    fact(ctx, R, ineq, "difference", Fi.assigns("neg_twos_comp_nbs"), ["self._convert_to_negative_twos_complement(ite(assert_less_than, self.get_n_fresh(len(int_to_binary(k))), self.pop_count(in_list, 1 + len(int_to_binary(k)))))"], "the subtrahend is negated in two's complement")
     rc = [c for c, st in Fi.calls_named("ripple_carry")]
     ctx.check(len(rc) == 1 and [ast.unparse(a) for a in rc[0].args] == ["kbs", "neg_twos_comp_nbs"], R, ineq, "addition",
               "difference = minuend + (-subtrahend)", "the difference is computed as %s" % ([ast.unparse(a) for a in rc[0].args] if rc else "?"))
